@@ -67,6 +67,24 @@ func subsetAndFilter(c *vlib.Case, api string, in *minfo, out []vlib.Tri, f *ver
 
 func secDecimate(r *vlib.Run) {
 	r.Section("decimate", r.N(780, 10400), vlib.SectionOpts{}, func(c *vlib.Case) {
+		decimateCase(c, false)
+	})
+}
+
+// SplitAttempts >= 2 switches the loop filler to exhaustive backtracking over
+// all split lines at every recursion level; on the pinned tree one call can
+// then run for longer than any limit (see FINDINGS.md). Those settings run in
+// their own sequential section beside the others and under their own API name
+// so that a confirmed non-return does not remove Decimate from the other
+// sections.
+func secDecimateSplitAttempts(r *vlib.Run) {
+	r.Section("decimate-split-attempts", r.N(150, 2000), vlib.SectionOpts{Sequential: true, Watchdog: 400 * time.Second}, func(c *vlib.Case) {
+		decimateCase(c, true)
+	})
+}
+
+func decimateCase(c *vlib.Case, splitAttempts bool) {
+	{
 		rng := c.Rng
 		in := genMesh(c, rng, -1, 2500)
 		if in == nil {
@@ -78,7 +96,10 @@ func secDecimate(r *vlib.Run) {
 		var f *vertexFilter
 		api := "model3d.Decimator.Decimate"
 		extra := map[string]interface{}{}
-		if rng.Intn(4) == 0 {
+		if splitAttempts {
+			api = "model3d.Decimator.Decimate[SplitAttempts>=2]"
+		}
+		if !splitAttempts && rng.Intn(4) == 0 {
 			api = "model3d.DecimateSimple"
 			extra["epsilon"] = eps
 			res, ok := guarded(c, api, func() map[string]interface{} { return in.witness(extra) }, func() interface{} { return model3d.DecimateSimple(in.mesh, eps) })
@@ -96,7 +117,10 @@ func secDecimate(r *vlib.Run) {
 			if rng.Intn(2) == 0 {
 				d.MinimumAspectRatio = math.Pow(10, -3*rng.Float64())
 			}
-			d.SplitAttempts = []int{0, 1, 2, 5}[rng.Intn(4)]
+			d.SplitAttempts = rng.Intn(2)
+			if splitAttempts {
+				d.SplitAttempts = []int{2, 3, 5}[rng.Intn(3)]
+			}
 			if rng.Intn(2) == 0 {
 				f = newVertexFilter(rng, in)
 				d.FilterFunc = f.call
@@ -123,7 +147,7 @@ func secDecimate(r *vlib.Run) {
 		if in.topo.Vertices <= 6 && removed == 0 {
 			c.Count("decimate.tiny_refused", 1)
 		}
-	})
+	}
 }
 
 func angleBetween(a, b C3) float64 {
